@@ -212,7 +212,7 @@ fn diff_kind(want: &[String], got: &[String]) -> &'static str {
 }
 
 pub fn run(ctx: &Ctx) -> (Spec, Report) {
-    let n = ctx.tier.pick(2400, 40_000);
+    let n = ctx.tier.pick(5000, 60_000);
     let mut rep = run_rounds(
         ctx,
         "C03",
